@@ -1,5 +1,6 @@
 (* implacc area (P24): ACCEPTANCE of an implementation trace by the small-step engine model with the queue discipline left open.
-   request:  accept <scenario file> <implementation trace file>      (formats of harness/cpp/engine_driver.cpp)
+   request:  accept <scenario file> <implementation trace file> [<node budget of the repeated plain search, 0 = do not repeat>]
+             (formats of harness/cpp/engine_driver.cpp)
    answer:   ok <statistics>
            | reject <build number> <position in the build's event list> <explanation>
    For every build of the scenario: s := acc_begin s root; the observed event lines of that build (need / valid / create / start /
@@ -151,8 +152,23 @@ type search_stats = { mutable nodes : int; mutable steps : int; mutable silent :
 
 exception Found of istate * (glabel list)
 
+(* The key under which a state counts as visited.  enabled_gen offers EVERY position of a queue, and the lists a rule / task parks its
+   waiters in (pausedInputRequests, deferredScanRequests, requestedBy) are only ever moved into a queue as a block, so two states that
+   differ only in the order inside those lists (and inside the two association lists, which are looked up by key) have the same futures:
+   same events, same end lines (the wait-for graph line is sorted, findCycle does not depend on the edge order:
+   FindCycleProofs.fc_edge_order_irrelevant).  The key therefore sorts them.  This argument is not machine-checked; it can only make the
+   search miss a run (reject too much), never accept a trace that is not a run.  VERIF_ACC_NORM=0 switches the sorting off. *)
+let normalise = ref (match Sys.getenv_opt "VERIF_ACC_NORM" with Some "0" -> false | _ -> true)
+let sortl l = List.sort compare l
+let norm_state (s : istate) : istate =
+  if not !normalise then { s with is_log = [] } else
+  { s with is_log = [];
+           is_toscan = sortl s.is_toscan; is_inreq = sortl s.is_inreq; is_fininreq = sortl s.is_fininreq;
+           is_ready = sortl s.is_ready; is_fintasks = sortl s.is_fintasks;
+           is_rules = sortl (List.map (fun (k, ri) -> (k, { ri with ri_paused = sortl ri.ri_paused; ri_deferred = sortl ri.ri_deferred })) s.is_rules);
+           is_tasks = sortl (List.map (fun (k, ti) -> (k, { ti with ti_reqby = sortl ti.ti_reqby; ti_deferred = sortl ti.ti_deferred })) s.is_tasks) }
 let state_key (consumed : int) (s : istate) : int * string =
-  (consumed, Digest.string (Marshal.to_string { s with is_log = [] } [Marshal.No_sharing]))
+  (consumed, Digest.string (Marshal.to_string (norm_state s) [Marshal.No_sharing]))
 
 let first_diff (a : string list) (b : string list) : string =
   let rec go i a b = match a, b with
@@ -162,6 +178,26 @@ let first_diff (a : string list) (b : string list) : string =
     | x :: a', y :: b' -> if x = y then go (i + 1) a' b' else Printf.sprintf "end line %d: implementation `%s`, model `%s`" i x y in
   go 0 a b
 
+(* Reduction of the search (not of what is accepted, see below): two kinds of steps never print anything and can be moved to the front of
+   any run without changing the events or the final state (up to the order inside queues):
+     - GFinTask (finish_task): the rule becomes Complete, its waiters are woken; every other step finds an input that is Complete where it
+       found it Computing before, which only changes WHERE a request waits (requestedBy / deferredScanRequests of the task, or the queue);
+     - GFinInreq of an order-only request (mustFollow): only the waitCount of the requesting task goes down (and the task may become ready;
+       it still waits in readyTaskInfos for its own step).
+   So when such a step is enabled the search takes it and nothing else.  The argument is not machine-checked: if it were wrong the search
+   could miss a run (and the handler, which repeats a failed search without the reduction, would notice); it cannot accept a non-run,
+   because every state is still produced by enabled_gen alone.  VERIF_ACC_EAGER=0 switches the reduction off. *)
+let eager = ref (match Sys.getenv_opt "VERIF_ACC_EAGER" with Some "0" -> false | _ -> true)
+let eager_only (s : istate) (cands : (glabel * istate) list) : (glabel * istate) list =
+  let silent (_, s') = (match new_events s.is_log s'.is_log with Some [] -> true | _ -> false) in
+  match List.find_opt (fun ((l, _) as c) -> (match l with GFinTask _ -> silent c | _ -> false)) cands with
+  | Some c -> [c]
+  | None ->
+    (match List.find_opt (fun ((l, s') as c) -> (match l with GFinInreq _ -> silent c && s'.is_fault = s.is_fault | _ -> false)) cands with
+     | Some c -> [c]
+     | None -> cands)
+
+let deps_pruning = ref (match Sys.getenv_opt "VERIF_ACC_DEPS" with Some "0" -> false | _ -> true)
 exception Budget_exhausted
 let silent_cap = 4000            (* consecutive steps without an event on one path (never reached: every step removes a queue item) *)
 
@@ -174,6 +210,28 @@ let search_build (enabled : istate -> (glabel * istate) list) (usedb : bool) (ro
   let visited : (int * string, unit) Hashtbl.t = Hashtbl.create 1024 in
   let note consumed txt =
     if consumed = st.deepest && List.length st.expected < 6 && not (List.mem txt st.expected) then st.expected <- st.expected @ [txt] in
+  (* Pruning on the recorded dependencies: the dependency list of a rule whose task was created in this build is cleared at the creation and
+     from then on only appended to (route_request, finish_task), and the observed `deps` line shows it at the end of the build; so in every
+     state of an accepted run it is a prefix of the observed list.  A successor state that violates this cannot be completed to an accepted
+     run and is dropped at once (this only cuts branches that the comparison of the end lines would refuse later). *)
+  let obs_deps : (int, int list) Hashtbl.t = Hashtbl.create 16 in
+  List.iter (fun l -> match String.split_on_char ' ' l with
+      | "deps" :: k :: ds -> (try Hashtbl.replace obs_deps (int_of_string k) (List.map int_of_string ds) with _ -> ())
+      | _ -> ()) ob.ob_end;
+  let created : (int, unit) Hashtbl.t = Hashtbl.create 16 in
+  Array.iter (fun l -> match String.split_on_char ' ' l with ["create"; k] -> (try Hashtbl.replace created (int_of_string k) () with _ -> ()) | _ -> ()) ob.ob_events;
+  let rec is_prefix a b = match a, b with [], _ -> true | x :: a', y :: b' -> x = y && is_prefix a' b' | _ :: _, [] -> false in
+  let deps_ok (s : istate) : bool =
+    not !deps_pruning ||
+    List.for_all (fun (k, ri) ->
+        let ki = int_of_n k in
+        let has_task = (match ri.ri_kind with
+            | KWaiting | KComputing -> true
+            | KComplete -> ri.ri_res.res_builtAt = s.is_epoch && Hashtbl.mem created ki
+            | _ -> false) in
+        not has_task ||
+        is_prefix (List.map (fun d -> int_of_n d.d_key) ri.ri_res.res_deps) (match Hashtbl.find_opt obs_deps ki with Some l -> l | None -> []))
+      s.is_rules in
   let rec dfs s consumed phase path silent_run =
     st.nodes <- st.nodes + 1;
     if st.nodes > budget then begin st.exhausted <- true; raise Budget_exhausted end;
@@ -189,6 +247,7 @@ let search_build (enabled : istate -> (glabel * istate) list) (usedb : bool) (ro
         | None -> ()
       end;
       let cands = order_candidates phase (enabled s) in
+      let cands = if !eager then eager_only s cands else cands in
       if cands = [] && consumed < n then note consumed "no step is enabled (the model's loop is left here)";
       List.iter (fun (l, s') ->
           match new_events s.is_log s'.is_log with
@@ -200,7 +259,8 @@ let search_build (enabled : istate -> (glabel * istate) list) (usedb : bool) (ro
             (match matches consumed evs with
              | Ok c' ->
                let sr = if evs = [] then silent_run + 1 else 0 in
-               if sr <= silent_cap then
+               if not (deps_ok s') then note c' (Printf.sprintf "%s records a dependency order other than the observed `deps` line" (label_str l))
+               else if sr <= silent_cap then
                  dfs s' c' (let q = queue_of_label l in if q = 5 then phase else q) (l :: path) sr
              | Error (i, x) ->
                if i > st.deepest then begin st.deepest <- i; st.expected <- []; st.end_mismatch <- None end;
@@ -212,14 +272,21 @@ let search_build (enabled : istate -> (glabel * istate) list) (usedb : bool) (ro
    | Some (_, path) ->
      st.steps <- List.length path
    | None -> ());
+  if Sys.getenv_opt "VERIF_ACC_DEBUG" <> None && st.nodes > 1000 then begin
+    let h = Array.make (n + 1) 0 in
+    Hashtbl.iter (fun (c, _) () -> h.(c) <- h.(c) + 1) visited;
+    prerr_endline (Printf.sprintf "build %s: nodes=%d visited per consumed: %s" ob.ob_no st.nodes
+                     (String.concat " " (List.filter (fun x -> x <> "") (Array.to_list (Array.mapi (fun i c -> if c > 1 then Printf.sprintf "%d:%d" i c else "") h)))))
+  end;
   (res, st)
 
 (* ---------- the handler ---------- *)
 let default_budget = 400000      (* search nodes per build; VERIF_ACC_BUDGET overrides *)
+let default_budget2 = 60000      (* the same for the repetition of a failed search without reductions; VERIF_ACC_BUDGET2 *)
 
 let () =
-  register "accept" (function
-      | [file; trace] ->
+  register "accept" (fun args -> match (match args with [f; t] -> Some (f, t, None) | [f; t; b2] -> Some (f, t, int_of_string_opt b2) | _ -> None) with
+      | Some (file, trace, b2arg) ->
         let lines = read_lines file in
         let items = ref (split_trace (read_lines trace)) in
         let budget = (match Sys.getenv_opt "VERIF_ACC_BUDGET" with Some x -> (try int_of_string x with _ -> default_budget) | None -> default_budget) in
@@ -229,6 +296,9 @@ let () =
         let st = ref init_istate in
         let verdict = ref None in                              (* Some "reject ..." *)
         let tot_events = ref 0 and tot_nodes = ref 0 and tot_steps = ref 0 and max_nodes = ref 0 and max_ratio = ref 1.0 in
+        let budget2 = (match b2arg with Some b -> b | None ->
+            (match Sys.getenv_opt "VERIF_ACC_BUDGET2" with Some x -> (try int_of_string x with _ -> default_budget2) | None -> default_budget2)) in
+        let missed = ref 0 in                                  (* builds accepted only by the plain search (a reduction lost the run) *)
         let hist = Array.make 6 0 in                           (* nodes / steps of the accepted run: 1, <=1.5, <=2, <=5, <=20, more *)
         let reject b pos msg = if !verdict = None then verdict := Some (Printf.sprintf "reject %d %d %s" b pos msg) in
         let next_item () = match !items with [] -> None | x :: tl -> items := tl; Some x in
@@ -259,6 +329,20 @@ let () =
                      let enabled = enabled_gen rl (env_of !envl) mixF od (fun _ -> sync) in
                      let s0 = acc_begin !st root in
                      let (res, ss) = search_build enabled !usedb root budget s0 ob in
+                     (* a failed search is repeated without any of the three reductions (sorted keys, dependency pruning, eager silent steps) *)
+                     let (res, second) =
+                       if res <> None || budget2 <= 0 || not (!normalise || !eager || !deps_pruning) then (res, "")
+                       else begin
+                         let saved = (!normalise, !eager, !deps_pruning) in
+                         normalise := false; eager := false; deps_pruning := false;
+                         let (res2, ss2) = search_build enabled !usedb root budget2 s0 ob in
+                         (let (a, b, c) = saved in normalise := a; eager := b; deps_pruning := c);
+                         tot_nodes := !tot_nodes + ss2.nodes;
+                         (match res2 with
+                          | Some _ -> incr missed; ss.steps <- ss2.steps; (res2, "")
+                          | None -> (None, Printf.sprintf " | plain search without reductions: %s [nodes=%d]"
+                                       (if ss2.exhausted then "budget exhausted, no run found" else "no run either") ss2.nodes))
+                       end in
                      tot_events := !tot_events + Array.length ob.ob_events;
                      tot_nodes := !tot_nodes + ss.nodes;
                      max_nodes := max !max_nodes ss.nodes;
@@ -274,11 +358,11 @@ let () =
                         let n = Array.length ob.ob_events in
                         let obs = if ss.deepest < n then "`" ^ ob.ob_events.(ss.deepest) ^ "`" else "the end of the build's events" in
                         reject !nbuild ss.deepest
-                          (Printf.sprintf "%sobserved %s; no enabled step of the model produces it after the first %d events%s%s [nodes=%d]"
+                          (Printf.sprintf "%sobserved %s; no enabled step of the model produces it after the first %d events%s%s [nodes=%d]%s"
                              (if ss.exhausted then "SEARCH-BUDGET-EXHAUSTED (inconclusive) " else "") obs ss.deepest
                              (if ss.expected = [] then "" else " | " ^ String.concat " | " ss.expected)
                              (match ss.end_mismatch with Some m -> " | a run consuming all events ends differently: " ^ m | None -> "")
-                             ss.nodes))
+                             ss.nodes second))
                    end
                  | Some (OBuild ob) -> reject !nbuild 0 (Printf.sprintf "the scenario builds %s as build %d, the trace has `build %s %s`" k !nbuild ob.ob_no ob.ob_root)
                  | _ -> reject !nbuild 0 "the trace has no lines for this build")
@@ -287,6 +371,6 @@ let () =
          | Some v -> v
          | None ->
            if !items <> [] then Printf.sprintf "reject %d 0 the trace goes on after the scenario's last build" !nbuild
-           else Printf.sprintf "ok builds=%d events=%d steps=%d nodes=%d maxnodes=%d maxratio=%.2f ratiohist=%s"
-               !nbuild !tot_events !tot_steps !tot_nodes !max_nodes !max_ratio (String.concat "," (Array.to_list (Array.map string_of_int hist))))
-      | _ -> "ERR args")
+           else Printf.sprintf "ok builds=%d events=%d steps=%d nodes=%d maxnodes=%d maxratio=%.2f reduction_missed=%d ratiohist=%s"
+               !nbuild !tot_events !tot_steps !tot_nodes !max_nodes !max_ratio !missed (String.concat "," (Array.to_list (Array.map string_of_int hist))))
+      | None -> "ERR args")
